@@ -14,7 +14,7 @@
 (* per failed PROPERTY conjunct (and "DRIFT" for conformance conjuncts).    *)
 (* Acceptance (POSTCONDITION): every line of the trace was consumed.        *)
 (***************************************************************************)
-EXTENDS Store, Search, Json, IOUtils
+EXTENDS Store, Search, KeyOps, Json, IOUtils
 
 Rec == ndJsonDeserialize(IOEnv.TRACE)
 
@@ -307,6 +307,32 @@ Abort ==
   /\ l' = l + 1
   /\ UNCHANGED <<committed, ccaps, mapfull>>
 
+\* C16: a database written by the reference version (golden key/value fixture) was put byte for byte
+\* into a fresh environment: the API must show exactly what the reference decoder finds in those bytes,
+\* the recorded items and the recorded query answers; the keys re-encode to the same bytes and are sorted.
+Load ==
+  /\ IsEv("Load")
+  /\ LET e == Rec[l]
+         all == [j \in DOMAIN e.all |-> JIndex(e.all[j])]
+         keyBad == \E k \in DOMAIN e.keys :
+                     LET x == e.keys[k] IN x.index < 0 \/ Enc(x.index, x.kind, <<x.id_hi, x.id_lo>>) # x.bytes
+         orderBad == \E k \in DOMAIN e.keys : k + 1 \in DOMAIN e.keys /\ ~LexLess(e.keys[k].bytes, e.keys[k + 1].bytes)
+         bad == (IF \E j \in DOMAIN e.all : e.all[j].problems # <<>> \/ e.all[j].leafw_bad # 0 THEN {<<"C16", "fixture_does_not_decode">>} ELSE {})
+                \cup (IF keyBad THEN {<<"C16", "key_bytes_differ_from_the_layout">>} ELSE {})
+                \cup (IF orderBad THEN {<<"C16", "keys_not_in_index_kind_id_order">>} ELSE {})
+                \cup (IF ~e.items_ok THEN {<<"C16", "recorded_items_not_returned">>} ELSE {})
+                \cup (IF ~e.answers_ok THEN {<<"C16", "recorded_query_answers_differ">>} ELSE {})
+                \cup (IF e.foreign # 0 THEN {<<"C16", "keys_outside_the_indexes">>} ELSE {})
+                \cup {<<"C16", "api_" \o d[2]>> : d \in UNION {ObsDefects(e.obs_all[j], all[j]) : j \in DOMAIN e.obs_all}}
+                \cup {<<"C16", "forest_" \o d>> : d \in UNION {IF all[j].meta = NoMeta \/ all[j].updated # {} THEN {} ELSE
+                          ForestDefects(all[j].nodes, all[j].meta.roots, Live(all[j]), all[j].meta.items) : j \in DOMAIN all}}
+                \cup {<<"C16", "search_" \o d[2]>> : d \in UNION {SearchDefects(e.qs[k].q, all[e.qs[k].i], all[e.qs[k].i].nodes,
+                                                                              LAMBDA p, x : "U") : k \in DOMAIN e.qs}}
+     IN /\ Report("VIOL", [h |-> e.h, k |-> e.k, ev |-> "Load"], bad)
+        /\ cur' = all /\ committed' = all
+  /\ l' = l + 1
+  /\ UNCHANGED <<caps, ccaps, mapfull>>
+
 \* a build that neither returned nor polled the cancellation callback for the watchdog period:
 \* the harness wrote the trace up to there and stopped
 Hang ==
@@ -324,7 +350,7 @@ TraceInit ==
 TraceNext ==
   \/ Reset
   \/ AddLike("Add") \/ AddLike("Append")
-  \/ Del \/ AddMany \/ DelMany \/ Clear \/ ChangeMetric \/ Build \/ SearchEv \/ Commit \/ Abort \/ Hang
+  \/ Del \/ AddMany \/ DelMany \/ Clear \/ ChangeMetric \/ Build \/ SearchEv \/ Commit \/ Abort \/ Hang \/ Load
 
 TraceSpec == TraceInit /\ [][TraceNext]_tvars
 
